@@ -690,7 +690,7 @@ std::vector<OptRef> collect_opts(Rng &r, const json &opts)
 				int fl = o.value("fl", 0);
 				json at2 = at;
 				unsigned idx = (fl & F_MULTI) ? (unsigned)r.below(3) : 0;
-				at2.push_back(json::array({o["n"], idx}));
+				at2.push_back(json::array({o["n"], idx, fl})); // name, instance, declared flags of the section
 				rec(o["sub"], at2, in_multi || (fl & F_MULTI));
 			}
 		}
@@ -700,8 +700,8 @@ std::vector<OptRef> collect_opts(Rng &r, const json &opts)
 }
 
 // the first NT titles are used for add / remove: one contains '=', "t1" is a proper prefix of "t10" and "t" of both
-static const char *TITLES[] = {"t10", "t1", "a=b", "t", "x|y", "it's", "T0", "a b", "q'x", ""};
-static const int NT = 6;
+static const char *TITLES[] = {"t10", "t1", "a=b", "t", "x|y", "it's", "", "T0", "a b", "q'x"};
+static const int NT = 7;
 
 // a title as written in a path: bare, properly quoted, or quoted and malformed
 static std::string path_title(Rng &r, const std::string &t)
@@ -723,6 +723,25 @@ static std::string path_title(Rng &r, const std::string &t)
 	default:
 		return t;
 	}
+}
+
+// the stepwise address 'at' written as the leading components of a path ("outer=1|mid='a title'|"); titled
+// sections are addressed by a title from the pool, which may or may not exist (the model decides what follows)
+std::string path_prefix(Rng &r, const json &at)
+{
+	std::string p;
+	for (auto &a : at) {
+		int fl = a.size() > 2 ? a[2].get<int>() : 0;
+		p += a[0].get<std::string>();
+		if (fl & F_MULTI) {
+			if (fl & F_TITLE)
+				p += "=" + path_title(r, TITLES[r.below(NT)]);
+			else if (a[1].get<unsigned>() != 0 || r.chance(1, 2))
+				p += "=" + std::to_string(a[1].get<unsigned>());
+		}
+		p += "|";
+	}
+	return p;
 }
 
 static json typed_value(Rng &r, const std::string &t, bool hostile)
@@ -816,6 +835,11 @@ json gen_api_step(Rng &r, int cl, int ctx, const std::vector<OptRef> &refs, cons
 			{
 				static const char *badidx[] = {"1st", "0x", "2.0", "-1", " 1", "1 ", "0x1"};
 				p += "=" + ((fl & F_TITLE) ? path_title(r, TITLES[r.below(NT)]) : (r.chance(1, 4) ? std::string(badidx[r.below(7)]) : std::to_string(r.below(3))));
+			}
+			// a nested section is sometimes addressed by one path from the top instead of step by step
+			if (!ref.at.empty() && r.chance(1, 3)) {
+				p = path_prefix(r, ref.at) + p;
+				s["at"] = json::array();
 			}
 			s["name"] = p;
 		} else if ((fl & F_TITLE) && (fl & F_MULTI)) {
